@@ -143,6 +143,8 @@ class Crate:
         self.by_key = {}
         for body in self.bodies.values():
             self.by_key.setdefault(body.key, []).append(body)
+        from . import canon
+        canon.canonicalise(self)
 
     def body(self, key):
         bs = self.by_key.get(key, [])
@@ -159,7 +161,7 @@ class Crate:
 
 
 def _load_file(f):
-    pk = f + ".pickle"
+    pk = f + ".pickle3"
     if os.path.exists(pk) and os.path.getmtime(pk) >= os.path.getmtime(f):
         try:
             return pickle.load(open(pk, "rb"))
